@@ -6,9 +6,10 @@ pub mod c13;
 pub mod c14;
 pub mod c15;
 pub mod c16;
+pub mod c19;
 pub mod c20;
 
-pub const REGISTRY: &[(&str, fn(&Reporter), &str)] = &[("C13", c13::check, "model_checking"), ("C14", c14::check, "exploration"), ("C15", c15::check, "exploration"), ("C16", c16::check, "exploration"), ("C20", c20::check, "exploration")];
+pub const REGISTRY: &[(&str, fn(&Reporter), &str)] = &[("C13", c13::check, "model_checking"), ("C14", c14::check, "exploration"), ("C15", c15::check, "exploration"), ("C16", c16::check, "exploration"), ("C19", c19::check, "exploration"), ("C20", c20::check, "exploration")];
 
 /// Re-execute a replay artefact; prints REPRODUCED / NOT-REPRODUCED.
 pub fn replay(v: &serde_json::Value) -> i32 {
